@@ -161,3 +161,34 @@ Fixpoint no_dup_msgs (sc : schema) (fuel : nat) (ty : nat) (p : list byte) : boo
           end) flds
     end
   end.
+
+(* ---------- the same exclusion on arbitrary bytes (C08): judged on the reference parse, canonical or not ---------- *)
+Definition raw_fields (p : list byte) : option (list rfield) :=
+  match ref_parse_all (S (length p)) p with Some flds => Some (map fst flds) | None => None end.
+Fixpoint no_dup_raw (sc : schema) (fuel : nat) (ty : nat) (p : list byte) : bool :=
+  match fuel with
+  | O => false
+  | S f =>
+    let md := nth ty sc empty_md in
+    match raw_fields p with
+    | None => false
+    | Some flds =>
+        singular_msgs_once md flds &&
+        forallb (fun fl =>
+          match find_field md (rnum fl), fl with
+          | Some fd, RLen _ b =>
+              match fcard_ fd, fkind_ fd with
+              | CMap _ (FMsg t), _ =>
+                  match raw_fields b with
+                  | Some efs => (count_num 2 efs <=? 1)%nat &&
+                                forallb (fun e => match e with RLen 2 vb => no_dup_raw sc f t vb | _ => true end) efs
+                  | None => false
+                  end
+              | CMap _ _, _ => true
+              | _, FMsg t => no_dup_raw sc f t b
+              | _, _ => true
+              end
+          | _, _ => true
+          end) flds
+    end
+  end.
